@@ -1,3 +1,249 @@
-import StirVerif.C16.Model
+/-
+C16 — "The simulated single-scatter estimate for a detector pair is unchanged when the two detectors are
+exchanged, is linear in the activity image, zero for zero activity and never negative. It is the same with the
+line-integral cache enabled or disabled, and after any sequence of changes to the activity image, attenuation
+image, scatter-point image, template or energy settings followed by set-up it equals the result of a freshly
+configured simulation."
+
+Property theorems over the model of `Model.lean`. The formula theorems hold in every linearly ordered field, for
+every number of scatter points; the state-machine theorems for every history (no bound on its length) and every
+world. What is *not* theorem: that the C++ line integrals are the weighted sums of `integralBetween2Points`
+(correspondence/oracle only), the physics functions (inputs), floating point.
+-/
+import StirVerif.C16.ProofsFormula
+import StirVerif.C16.ProofsCache
+import StirVerif.C16.ProofsState
+import StirVerif.C16.ProofsTable
+import StirVerif.C16.ProofsFaithful
+import Mathlib.Algebra.Order.Field.Rat
+import Mathlib.Tactic.NormNum
+
 namespace StirVerif.C16
+
+section Formula
+variable {K : Type} [Field K] [LinearOrder K] [IsStrictOrderedRing K]
+
+/-- "unchanged when the two detectors are exchanged" — one scatter point
+    (`simulate_for_one_scatter_point(sp, A, B) = simulate_for_one_scatter_point(sp, B, A)`) -/
+theorem C16_simulate_symmetric (c : PC K) (a b : PD K) :
+    simulateForOneScatterPoint c a b = simulateForOneScatterPoint c b a :=
+  simulate_symm c a b
+
+/-- "unchanged when the two detectors are exchanged" — the estimate for the pair: exchanging the per-detector
+    ingredients of every scatter point and the two incidence cosines of `detection_efficiency_no_scatter` -/
+theorem C16_estimate_symmetric (pts : List (PC K × PD K × PD K)) (rAB2 eff511 cosA cosB pi vol sigma : K) :
+    actualScatterEstimate (swapPts pts) (detectionEfficiencyNoScatter rAB2 eff511 cosB cosA pi) vol sigma =
+      actualScatterEstimate pts (detectionEfficiencyNoScatter rAB2 eff511 cosA cosB pi) vol sigma :=
+  estimate_symm pts rAB2 eff511 cosA cosB pi vol sigma
+
+/-- "linear in the activity image" — in the activity integrals: if every activity integral is `α·e₁ + β·e₂` the
+    estimate is `α·estimate₁ + β·estimate₂` (the early return on zero integrals does not break this) -/
+theorem C16_estimate_linear_in_activity {ι : Type} (l : List ι) (c : ι → PC K) (a b : ι → PD K) (α β : K)
+    (e1A e1B e2A e2B : ι → K) (effAB vol sigma : K) :
+    actualScatterEstimate (ptsOf l c a b (fun i => α * e1A i + β * e2A i) (fun i => α * e1B i + β * e2B i)) effAB vol sigma =
+      α * actualScatterEstimate (ptsOf l c a b e1A e1B) effAB vol sigma
+        + β * actualScatterEstimate (ptsOf l c a b e2A e2B) effAB vol sigma :=
+  estimate_linear l c a b α β e1A e1B e2A e2B effAB vol sigma
+
+/-- "linear in the activity image" — in the image itself, when the activity integrals are what
+    `integral_over_activity_image_between_scattpoint_det` computes: solid-angle factor times the sum of
+    (voxel value × intersection length) over the voxels of the ray that lie inside the image -/
+theorem C16_estimate_linear_in_activity_image {ι V : Type} (l : List ι) (c : ι → PC K) (a b : ι → PD K)
+    (saA saB : ι → K) (inImage : V → Bool) (lorA lorB : ι → List (V × K)) (x y : V → K) (α β effAB vol sigma : K) :
+    actualScatterEstimate
+        (ptsOf l c a b (fun i => integralOverActivity (saA i) (fun v => α * x v + β * y v) inImage (lorA i))
+                       (fun i => integralOverActivity (saB i) (fun v => α * x v + β * y v) inImage (lorB i))) effAB vol sigma =
+      α * actualScatterEstimate
+            (ptsOf l c a b (fun i => integralOverActivity (saA i) x inImage (lorA i))
+                           (fun i => integralOverActivity (saB i) x inImage (lorB i))) effAB vol sigma
+      + β * actualScatterEstimate
+            (ptsOf l c a b (fun i => integralOverActivity (saA i) y inImage (lorA i))
+                           (fun i => integralOverActivity (saB i) y inImage (lorB i))) effAB vol sigma := by
+  have hA : (fun i => integralOverActivity (saA i) (fun v => α * x v + β * y v) inImage (lorA i)) =
+      fun i => α * integralOverActivity (saA i) x inImage (lorA i) + β * integralOverActivity (saA i) y inImage (lorA i) :=
+    funext fun i => integralOverActivity_linear (saA i) x y α β inImage (lorA i)
+  have hB : (fun i => integralOverActivity (saB i) (fun v => α * x v + β * y v) inImage (lorB i)) =
+      fun i => α * integralOverActivity (saB i) x inImage (lorB i) + β * integralOverActivity (saB i) y inImage (lorB i) :=
+    funext fun i => integralOverActivity_linear (saB i) x y α β inImage (lorB i)
+  rw [hA, hB]
+  exact estimate_linear l c a b α β _ _ _ _ effAB vol sigma
+
+/-- "zero for zero activity" -/
+theorem C16_zero_activity_zero {ι : Type} (l : List ι) (c : ι → PC K) (a b : ι → PD K) (effAB vol sigma : K) :
+    actualScatterEstimate (ptsOf l c a b (fun _ => 0) (fun _ => 0)) effAB vol sigma = 0 :=
+  estimate_zero l c a b effAB vol sigma
+
+/-- "never negative": if every factor that is read is non-negative (activity and attenuation integrals, the power
+    of the attenuation factor, squared distances, incidence cosines, efficiencies, cross section, μ, volume) -/
+theorem C16_estimate_nonneg (pts : List (PC K × PD K × PD K)) (rAB2 eff511 cosA cosB pi vol sigma : K)
+    (h : ∀ p ∈ pts, p.1.Nonneg ∧ p.2.1.Nonneg ∧ p.2.2.Nonneg)
+    (h1 : 0 ≤ rAB2) (h2 : 0 ≤ eff511) (h3 : 0 ≤ cosA) (h4 : 0 ≤ cosB) (h5 : 0 ≤ pi) (hv : 0 ≤ vol) (hs : 0 ≤ sigma) :
+    0 ≤ actualScatterEstimate pts (detectionEfficiencyNoScatter rAB2 eff511 cosA cosB pi) vol sigma :=
+  estimate_nonneg pts _ vol sigma h (detEffNoScatter_nonneg rAB2 eff511 cosA cosB pi h1 h2 h3 h4 h5) hv hs
+
+/-- the activity integral of a non-negative image along a ray with non-negative intersection lengths is non-negative
+    (so the `emis` hypothesis of `C16_estimate_nonneg` holds for such images) -/
+theorem C16_activity_integral_nonneg {V : Type} (x : V → K) (inImage : V → Bool) (lor : List (V × K))
+    (hx : ∀ v, 0 ≤ x v) (hl : ∀ e ∈ lor, 0 ≤ e.2) : 0 ≤ integralBetween2Points x inImage lor :=
+  integral_nonneg x inImage lor hx hl
+
+end Formula
+
+/-! non-vacuity: a concrete point with a non-zero, asymmetric-looking contribution -/
+def exC : PC ℚ := ⟨1/2, 3/4, 1, 1/8, 3/32⟩
+def exA : PD ℚ := ⟨2, 1/2, 5/4, 100, 7/8⟩
+def exB : PD ℚ := ⟨3/2, 3/4, 9/8, 144, 13/16⟩
+
+example : simulateForOneScatterPoint exC exA exB = 9009/83886080 := by
+  norm_num [simulateForOneScatterPoint, scatterRatioFormula, exC, exA, exB]
+example : exC.Nonneg ∧ exA.Nonneg ∧ exB.Nonneg := by
+  refine ⟨⟨?_, ?_, ?_⟩, ⟨?_, ?_, ?_, ?_, ?_⟩, ⟨?_, ?_, ?_, ?_, ?_⟩⟩ <;> norm_num [exC, exA, exB]
+example : actualScatterEstimate [(exC, exA, exB)] (detectionEfficiencyNoScatter 400 1 (1/2) (1/2) 3) 8 2 ≠ 0 := by
+  norm_num [actualScatterEstimate, sumOverScatterPoints, detectionEfficiencyNoScatter, simulateForOneScatterPoint,
+    scatterRatioFormula, exC, exA, exB]
+
+/-! ### cache -/
+
+/-- "the same with the line-integral cache enabled or disabled": whatever sequence of integrals is read, with the
+    cache enabled or not, through a cache whose entries are the sentinel or the current integral, every value read
+    is the directly computed integral, and the cache stays of that kind. (A fresh cache is of that kind:
+    `fresh_coherent`. No hypothesis that integrals differ from the sentinel is needed for the *values*; it only
+    decides whether an entry is recomputed.) -/
+theorem C16_cache_transparent {K : Type} [DecidableEq K] (useCache : Bool) (sentinel : K) (direct : Nat → Nat → K)
+    (c : CacheArr K) (reads : List (Nat × Nat)) (h : Coherent sentinel direct c) :
+    (cachedLookups useCache sentinel direct c reads).1 = reads.map (fun p => direct p.1 p.2) ∧
+      Coherent sentinel direct (cachedLookups useCache sentinel direct c reads).2 :=
+  cachedLookups_spec useCache sentinel direct c reads h
+
+/-- cache enabled = cache disabled, starting from the freshly initialised cache -/
+theorem C16_cache_on_eq_off {K : Type} [DecidableEq K] (sentinel : K) (direct : Nat → Nat → K) (reads : List (Nat × Nat)) :
+    (cachedLookups true sentinel direct (CacheArr.fresh sentinel) reads).1 =
+      (cachedLookups false sentinel direct (CacheArr.fresh sentinel) reads).1 := by
+  rw [(cachedLookups_spec true sentinel direct _ reads (fresh_coherent sentinel direct)).1,
+      (cachedLookups_spec false sentinel direct _ reads (fresh_coherent sentinel direct)).1]
+
+/-- why the caches must be removed when an input changes: an entry filled under the old inputs is returned
+    although the integral is now different -/
+theorem C16_cache_stale_read {K : Type} [DecidableEq K] (sentinel : K) (direct' : Nat → Nat → K) (c : CacheArr K)
+    (i j : Nat) (hfilled : c i j ≠ sentinel) (hchanged : c i j ≠ direct' i j) :
+    (cachedLookup true sentinel direct' c i j).1 ≠ direct' i j :=
+  stale_read sentinel direct' c i j hfilled hchanged
+
+example : (cachedLookups true (-1 : Int) (fun i j => 10 * i + j) (CacheArr.fresh (-1)) [(1, 2), (0, 3), (1, 2)]).1 = [12, 3, 12] := by
+  decide
+
+/-! ### setter table -/
+
+/-- "`modifies f ∩ deps c ≠ ∅ → c` is invalidated", the full statement — FALSE for the table extracted from the
+    unchanged source (see `C16_invalidation_failures`) -/
+def C16_invalidation_complete_full : Prop :=
+  ∀ f ∈ setterTable, (∀ d : Datum, invalidationOK f d = true) ∧ setUpForcedOK f = true
+
+/-- exactly which (setter, derived datum) pairs lack an invalidation, and which setter clears caches that only
+    `set_up` re-allocates without forcing a `set_up` -/
+theorem C16_invalidation_failures :
+    invalidationFailures setterTable =
+      [("set_exam_info", .effNoScatter),
+       ("set_image_downsample_factors", .spImage), ("set_image_downsample_factors", .scatt),
+       ("set_image_downsample_factors", .actCache), ("set_image_downsample_factors", .attCache),
+       ("set_attenuation_threshold", .scatt), ("set_attenuation_threshold", .actCache), ("set_attenuation_threshold", .attCache),
+       ("set_randomly_place_scatter_points", .scatt), ("set_randomly_place_scatter_points", .actCache),
+       ("set_randomly_place_scatter_points", .attCache),
+       ("set_cache_enabled", .actCache), ("set_cache_enabled", .attCache),
+       ("downsample_images_to_scanner_size", .spImage), ("downsample_images_to_scanner_size", .scatt)] ∧
+    setUpForcedFailures setterTable = ["set_use_cache"] :=
+  ⟨invalidationFailures_eq, setUpForcedFailures_eq⟩
+
+theorem C16_invalidation_complete_fails : ¬ C16_invalidation_complete_full := by
+  intro h
+  have := (h ⟨"set_exam_info", [.exam], [], [], true⟩ (by decide)).1 .effNoScatter
+  revert this; decide
+
+/-- invalidation is complete for the setters of the activity image, attenuation image, scatter-point image and
+    template (and the down-sampling calls): every derived datum that depends on what they assign is cleared,
+    recomputed, or rebuilt by the `set_up` they force. Missing: the rows listed in `C16_invalidation_failures`. -/
+theorem C16_invalidation_complete_partial :
+    ∀ f ∈ setterTable, f.name ∈ goodRows → (∀ d : Datum, invalidationOK f d = true) ∧ setUpForcedOK f = true := by
+  intro f hf hn
+  obtain ⟨h1, h2⟩ := goodRows_complete f hf hn
+  exact ⟨fun d => h1 d (allData_complete d), h2⟩
+
+/-- the table is a description of the setter functions of the state machine (the functions the correspondence run
+    compares with the C++), for every state and every argument: a setter leaves alone every setting its row does not
+    list as modified and every derived member its row does not list as cleared or recomputed; unless it returns
+    without effect, it clears what the row lists as cleared and resets `_already_set_up` if the row says so; and it
+    leaves `_already_set_up` alone if the row says it does not reset it -/
+theorem C16_table_faithful (W : World) (s : St) (op : Op) (f : SetterRow) (hf : rowOf op = some f) :
+    Faithful W s op f :=
+  table_faithful W s op f hf
+
+example : rowOf (.setExam 3) = some ⟨"set_exam_info", [.exam], [], [], true⟩ := by decide
+
+/-! ### histories -/
+
+/-- "after any sequence of changes … followed by set-up it equals the result of a freshly configured
+    simulation", the full statement over all histories of modelled operations — FALSE for the unchanged code
+    (negative witnesses below) -/
+def C16_history_eq_fresh_full : Prop :=
+  ∀ (W : World) (ops : List Op) (s : St), run W init ops = some s →
+    (process W s).2.1 ≠ .crash ∧ ∀ o, (process W s).2 = (.ok, some o) → freshOut W s = (.ok, some o)
+
+/-- after ANY history of setters / `set_up` / `process_data` / explicit down-sampling calls, of any length, in which
+    every operation satisfies the guard `opOk` (no `set_exam_info` while `detector_efficiency_no_scatter` is cached,
+    no threshold / zoom change while a scatter-point image derived with the old value exists, no enabling of the cache
+    on a set-up object, `downsample_scanner_bool` off): `process_data` does not touch unallocated cache storage, and
+    if it succeeds, everything it reads — scatter points, detection points, every cached or computed activity /
+    attenuation integral, `max_single_scatter_cos_angle`, `detector_efficiency_no_scatter` — was computed from exactly
+    the inputs a freshly configured object would use, so the outputs are equal.
+    `_partial`: the guard excludes the histories of the negative witnesses below. -/
+theorem C16_history_eq_fresh_partial (W : World) (ops : List Op) (s : St) (hrun : runGuarded W init ops = some s) :
+    (process W s).2.1 ≠ .crash ∧ ∀ o, (process W s).2 = (.ok, some o) → freshOut W s = (.ok, some o) :=
+  process_eq_fresh W s (inv_runGuarded W ops init s (inv_init W) hrun)
+
+/-- the same from any state that satisfies the invariant (e.g. in the middle of a history) -/
+theorem C16_history_eq_fresh_from_partial (W : World) (ops : List Op) (s0 s : St) (h0 : Inv W s0)
+    (hrun : runGuarded W s0 ops = some s) :
+    (process W s).2.1 ≠ .crash ∧ ∀ o, (process W s).2 = (.ok, some o) → freshOut W s = (.ok, some o) :=
+  process_eq_fresh W s (inv_runGuarded W ops s0 s h0 hrun)
+
+/-- non-vacuity: a guarded history with changes of activity, attenuation, scatter-point image, template and
+    energy window after a computation, at the end of which `process` succeeds (and is fresh) -/
+def exHistory : List Op :=
+  baseConfig ++ [.setUp, .process, .setActivity (some 1), .setUp, .process, .setDensity (some 1), .setThr 1, .setSpImage (some 1),
+    .setTemplate (W0.tmpl 1), .setExam 1, .setUseCache false, .setUp, .process, .setActivity (some 2), .setUseCache true, .setUp]
+
+example : (runGuarded W0 init exHistory).isSome = true ∧ freshAfter W0 exHistory = true := by decide
+
+/-- negative witness (replayed by the harness, KNOWN-CANDIDATE `scatter-cache:exam-info-setter-keeps-detection-
+    efficiency-no-scatter`): `set_exam_info` after a computation — the next result is normalised with the
+    efficiency of the old energy window -/
+theorem C16_history_eq_fresh_fails_exam : staleAfter W0 histExam = true := histExam_stale
+
+/-- negative witness (`scatter-cache:enabling-cache-after-set-up-reads-unallocated-cache`): `set_use_cache(true)` /
+    `set_cache_enabled(true)` after `set_up` ran without cache — `process_data` indexes an empty array -/
+theorem C16_history_eq_fresh_fails_enable_cache :
+    crashAfter W0 histEnableCache = true ∧ crashAfter W0 histEnableCache' = true :=
+  ⟨histEnableCache_crash, histEnableCache'_crash⟩
+
+/-- negative witness (`scatter-setup:downsample-scanner-flag-makes-set-up-non-idempotent`): with
+    `downsample_scanner_bool` the second `set_up` down-samples the down-sampled template again -/
+theorem C16_history_eq_fresh_fails_ds_flag :
+    staleAfter W0 histDsFlag = true ∧
+      downsampledTmpl (downsampledTmpl (W0.tmpl 0) 2 10) 2 10 ≠ downsampledTmpl (W0.tmpl 0) 2 10 :=
+  ⟨histDsFlag_stale, downsample_not_idempotent⟩
+
+/-- negative witnesses outside the property's list of changes (sampling parameters): a threshold / zoom change
+    after the scatter-point image exists is ignored -/
+theorem C16_history_eq_fresh_fails_thr_zoom : staleAfter W0 histThr = true ∧ staleAfter W0 histZoom = true :=
+  ⟨histThr_stale, histZoom_stale⟩
+
+theorem C16_history_eq_fresh_full_fails : ¬ C16_history_eq_fresh_full := by
+  intro h
+  obtain ⟨s, o, hr, hp, hne⟩ := staleAfter_spec W0 histExam histExam_stale
+  exact hne ((h W0 histExam s hr).2 o hp)
+
+/-- the history the design document suspected (another scatter-point image with the same number of scatter points
+    keeps the activity cache) is NOT a defect of this code: `sample_scatter_points` removes both caches -/
+theorem C16_spimage_setter_history_fresh : freshAfter W0 histSpImage = true := histSpImage_fresh
+
 end StirVerif.C16
